@@ -63,6 +63,8 @@ OnlyTooLarge    == d.err \in {"", "too_large"}
 BufBound        == (MaxMem # Unlimited /\ d.err = "") => Len(d.buf) <= MaxMem
 PartsBound      == (MaxPartsLim # Unlimited /\ d.err = "") => d.nparts <= MaxPartsLim
 GuardPurity     == (d.complete /\ d.err = "") => Outcome(d) = ref
+\* the part-count limit alone never fires on a body with no more parts than allowed, whatever the schedule
+PartsLimitExact == (MaxMem = Unlimited /\ MaxPartsLim # Unlimited /\ d.err = "too_large") => Len(ref.parts) > MaxPartsLim
 
 \* ---- export of generator wires for replay against the real decoder ----
 ExportWire == PrintT(ToJson([wire |-> wire, bnd |-> Boundary,
